@@ -75,7 +75,7 @@ func init() {
 			"the size reservation and its bail-out dominate the CAS; the popped header is cleared before it escapes; the pusher resets before swinging tail and links exactly (oldTail -> newTail) on the CAS-success edge; " +
 			"slot headers are written only by holder-role code; the payload window is header-stride consistent. " +
 			"NOT decided: absence of double ownership under all interleavings (ABA, the tail-CAS/link window, cross-process visibility), and that head/next values are always slot boundaries.",
-		RuleText: "R01.1 census of every store/atomic op/other use of *bufferList.{head,tail,size}; R01.2-R01.4,R01.7 per function containing CAS(*bufferList.head); R01.5 per function containing CAS(*bufferList.tail); R01.6 census of callers of header mutators and of raw stores into header bytes. Non-trivial = needed dominance/path/value-identity reasoning.",
+		RuleText: "R01.1 census of every store/atomic op/other use of *bufferList.{head,tail,size}; R01.2-R01.4,R01.7 per function containing CAS(*bufferList.head); R01.5 per function containing CAS(*bufferList.tail); R01.6 census of callers of header mutators and of raw stores into header bytes; R01.8 publish order inside linkNext; R01.9 ABA shape of the head CAS (a known finding on the current tree). Non-trivial = needed dominance/path/value-identity reasoning.",
 		Run:      runC01,
 	})
 }
@@ -174,6 +174,7 @@ func runC01(p *P, r *R) {
 		c01Pusher(p, r, f)
 	}
 	c01HeaderWriters(p, r, fr)
+	abaRule(p, r, "R01.9")
 	// R01.8 the link is published in the right order: next offset first, hasNext flag afterwards
 	if ln := p.fn("(bufferHeader).linkNext"); ln != nil {
 		nextO, _ := p.pkgConstInt("nextBufferOffset")
@@ -491,4 +492,45 @@ func c01HeaderWriters(p *P, r *R, fr freeListRoles) {
 		})
 	}
 	r.count("R01.6", "header write sites", n, 8)
+}
+
+// abaRule (R01.9 / R02.7): in a popper, the CAS on head installs a successor that was read from the
+// node designated by the expected-old value. Between that read and the CAS the node can be popped,
+// recycled and become head again with a different successor (ABA); the CAS then succeeds and head
+// designates a buffer that is still held, and the nodes behind the real successor are lost. The
+// pattern is safe only if the compared word carries a modification counter (a 64-bit word whose new
+// value combines the successor with an incremented tag of the old value).
+func abaRule(p *P, r *R, rule string) {
+	fr := p.freeListRoles()
+	n := 0
+	for _, f := range fr.poppers {
+		for _, ci := range findInstrs(f, p.mAtomic("CAS", "*bufferList.head")) {
+			cas := ci.(*ssa.Call)
+			old, nw := cas.Call.Args[1], cas.Call.Args[2]
+			readsThroughOld := derivedFrom(nw, func(v ssa.Value) bool {
+				c, ok := v.(*ssa.Call)
+				if !ok || p.calleeName(&c.Call) != "(bufferHeader).nextBufferOffset" {
+					return false
+				}
+				return derivedFrom(c.Call.Args[0], func(x ssa.Value) bool { return x == old }, 6)
+			}, 4)
+			if !readsThroughOld {
+				continue
+			}
+			n++
+			tagged := false
+			if callee := cas.Call.StaticCallee(); callee != nil && (callee.Name() == "CompareAndSwapUint64" || callee.Name() == "CompareAndSwapInt64") {
+				// new = f(successor, tag(old)+1)
+				if derivedFrom(nw, func(v ssa.Value) bool {
+					b, ok := v.(*ssa.BinOp)
+					return ok && (b.Op == token.SHR || b.Op == token.AND_NOT || b.Op == token.AND) && derivedFrom(b.X, func(x ssa.Value) bool { return x == old }, 3)
+				}, 6) {
+					tagged = true
+				}
+			}
+			r.ob(rule, p.fname(f)+": CAS(head, old, next-of-old) on an untagged offset (ABA)", p.ipos(cas), tagged, true,
+				"the successor is read from the node before the CAS; without a modification counter in the compared word a stale popper's CAS succeeds after the node was popped, recycled and became head again")
+		}
+	}
+	r.count(rule, "head CAS sites that install a successor read through the expected-old value", n, 1)
 }
